@@ -141,7 +141,7 @@ Definition index_silence (x : ext) (S : store) (s : silence) : store :=
           (vi S ++ [(ver S + 1, s_id s)])
           (ver S + 1).
 
-(* reindexSilence (repo fix ca83c00, DESIGN F1): the id gets the next version and moves to the tail of the version
+(* reindexSilence (repo fix 5c143bd, DESIGN F1): the id gets the next version and moves to the tail of the version
    index; an id that is not in the index (its matchers did not compile on snapshot load) only bumps the version *)
 Fixpoint vi_remove (id : string) (l : list (Z * string)) : option (list (Z * string)) :=
   match l with
